@@ -23,6 +23,9 @@ func DrainedPlan(_ context.Context, infos []Info, need, total, _ int) (map[strin
 		if infosCopy[i].Capacity < infosCopy[j].Capacity {
 			return true
 		}
+		if infosCopy[i].Capacity > infosCopy[j].Capacity {
+			return false
+		}
 		return infosCopy[i].Usage > infosCopy[j].Usage
 	})
 
